@@ -228,17 +228,22 @@ LOOKALIKES = ['', 'n:1', 'n:1 kg', 's:x', 'm:', 'z:', 'x:', '-:', 'r:x', 'r:x y'
               '\r\n\r\n', 'ver:"3.0"', '\\u0041', '\\n', '\\$', '\\\\"', 'a b', ' x', 'x ', '\\\\u0041', 'C:\\data\\ubad0', '\\u005cn', u'\\\u00e9t\u00e9', u'\u00e9\\', '\\U0041']
 
 
+# long payloads: more metacharacters than any small constant (a per-call replacement limit, a fixed-size buffer), then a delimiter
+LONG = [c * n + d for c in ['"', '\\', '$', '`', u'\xe9', 'a', '\n'] for n in (33, 40, 300) for d in ['"', '\\', '`', '$,"x', '\n"']] + \
+       ['\\"' * 40, '$"' * 40, u'\xe9"' * 40, '`\\' * 40]
+
+
 def run(ctx):
     cps_quick = quick_codepoints()
     if ctx.quick:
         cps = cps_quick
-        cell_strings = meta_strings(3) + LOOKALIKES
-        cont_strings = meta_strings(2) + LOOKALIKES
+        cell_strings = meta_strings(3) + LOOKALIKES + LONG
+        cont_strings = meta_strings(2) + LOOKALIKES + LONG
         cont_cps = [c for c in cps_quick if c < 0x100 or c in (0x2028, 0x2029, 0xd800, 0xffff, 0x10000, 0x10ffff)]
     else:
         cps = list(range(0, 0x110000))
-        cell_strings = meta_strings(3) + LOOKALIKES
-        cont_strings = meta_strings(3) + LOOKALIKES
+        cell_strings = meta_strings(3) + LOOKALIKES + LONG
+        cont_strings = meta_strings(3) + LOOKALIKES + LONG
         cont_cps = cps_quick
     tasks = []
     cp_payloads = [chr(c) for c in cps]
@@ -270,7 +275,7 @@ def run(ctx):
         'stats': st, 'exhaustive': True,
         'single_outcome_ok': True,
         'rule': 'complete enumeration of (payload x position x format): payload = every listed code point as a 1-character string and every '
-                'string of length <= %d (cells) / <= %d (container positions) over the 19-symbol metacharacter alphabet plus prefix look-alikes; '
+                'string of length <= %d (cells) / <= %d (container positions) over the 19-symbol metacharacter alphabet plus prefix look-alikes and 109 long payloads (33 / 40 / 300 metacharacters, then a delimiter); '
                 'packed per grid and bisected on failure; plus the container-position payloads as str / uri / ref display / xstr payload through the scalar API of both formats; evaluations = documents dumped and re-parsed; distinct = distinct (format, position, '
                 'version, payload); every payload is non-trivial (it is placed between two sentinel cells in a two-grid document)' % (
                     3, 2 if ctx.quick else 3),
